@@ -131,6 +131,15 @@ func ruleL7sel(r *Report, sel func(field string) bool, withRead bool) {
 		// readers
 		var bad *site
 		nread := 0
+		mis := map[string]bool{}
+		someWriter := heldSet{}
+		for _, w := range a.writes {
+			for k := range w.s.Held {
+				if !strings.HasPrefix(k, "latch") {
+					someWriter[lockBase(k)] = true
+				}
+			}
+		}
 		for i := range a.reads {
 			rd := &a.reads[i]
 			nread++
@@ -138,6 +147,25 @@ func ruleL7sel(r *Report, sel func(field string) bool, withRead bool) {
 			for l := range common {
 				if rd.s.Held.has(l) {
 					ok = true
+				}
+			}
+			if !ok {
+				// a reader that holds a lock which some, but not all, of the writers hold is a
+				// different defect from a reader that relies on its block latch alone (the lock it
+				// takes stopped ordering it against one of the writers): it gets its own key
+				other := heldSet{}
+				for k := range rd.s.Held {
+					if !strings.HasPrefix(k, "latch") && someWriter[lockBase(k)] {
+						other[lockBase(k)] = true
+					}
+				}
+				if len(other) > 0 {
+					if !mis[other.key()] {
+						mis[other.key()] = true
+						o := hr.Bad(n+"/holding "+other.key(), r.P.InstrPos(rd.ins), fmt.Sprintf("read in %s holding {%s}, but the header is replaced under {%s} only: the lock this reader takes no longer orders it against the writers that grow or append", rd.fn, other.key(), common.key()))
+						setWitness(o, rd.s)
+					}
+					continue
 				}
 			}
 			if !ok && bad == nil {
